@@ -71,8 +71,10 @@ func (c *checker) hook(e *sim.Ev) {
 		}
 	case "h.leader.enter":
 		s.enters++
+		s.lastTransT = e.T
 	case "h.leader.exit":
 		s.exits++
+		s.lastTransT = e.T
 	case "h.commit.leader":
 		c.leaderCommit(s, key, e)
 	case "h.commit.follower":
